@@ -9,6 +9,7 @@ import pygen
 import cfgcommon as cc
 from c06 import CLASS_FILE, run_cli, latest_json
 import c20mcp
+import c20fail
 
 # set to True once the report is deterministic (C05 repairs): then sections are compared exactly, order included
 STRICT_ORDER = True
@@ -112,7 +113,7 @@ def main(tier):
     thorough = tier == "thorough"
     root = lib.fresh_dir("c20")
     stats = dict(section_comparisons=0, per_file_comparisons=0, subsets=0, race_runs=0, mcp_hook_comparisons=0, projects=0)
-    only = os.environ.get("VERIF_C20_ONLY", "")      # development aid: "mcp" runs only the MCP section
+    only = os.environ.get("VERIF_C20_ONLY", "")      # development aid: "mcp" runs only the MCP section, "race" only the -race section
     nproj = 3 if thorough else 1
     for pi in range(0 if only else nproj):
         d, files = make_project(root, "p%d" % pi, rng, n_mods=4 if thorough else 3)
@@ -220,12 +221,12 @@ def main(tier):
     # ---------- (d') all seven MCP tools on the real server binary vs the command line (harness/c20mcp.py) ----------
     if only:
         files = []
-    if ck.go_ok:
+    if ck.go_ok and only != "race":
         stats.update(c20mcp.run(ck, root, thorough))
     # ---------- (c) data races: -race build of the real binary ----------
     race_bin = os.path.join(lib.BIN, "pyscn-race")
     rc, err = 1, "skipped (VERIF_C20_ONLY)"
-    if not only:
+    if only in ("", "race"):
         with lib.Lock("race"):
             rc, out, err = lib.run(["go", "build", "-race", "-o", race_bin, "./cmd/pyscn"], cwd=lib.REPO, env=lib.GOENV, timeout=900)
     if rc != 0:
@@ -256,6 +257,9 @@ def main(tier):
                 ck.violation("the race detector reports a data race in the concurrent analyses (GOMAXPROCS=%d, targets %s)" % (procs, targets),
                              {"kind": "race", "targets": targets, "report": p.stderr[max(0, i - 100):i + 3000]})
                 break
+        # ---------- (c') several analyses FAIL in one run (harness/c20fail.py): race freedom, "together = apart" and a stable failure report ----------
+        stats["failing"] = c20fail.run(ck, root, race_bin, canon, first_diff, thorough)
+        stats["race_runs"] += stats["failing"]["combined_runs"] + stats["failing"]["apart_runs"]
     ck.samples = [{"project_files": files, "selects": ["complexity", "deadcode", "clones", "cbo", "lcom", "deps"]},
                   {"mcp_tools": c20mcp.TOOLS, "mcp_scenarios": [x["name"] for x in stats.get("mcp_scenarios", [])],
                    "mcp_example": {"tool": "check_complexity", "arguments": {"path": "<project>", "min_complexity": 2, "output_mode": "full"},
@@ -264,7 +268,8 @@ def main(tier):
         "evaluations": stats["section_comparisons"] + stats["per_file_comparisons"] + stats["mcp_hook_comparisons"] + stats["race_runs"]
                        + sum(stats.get("mcp_comparisons", {}).values()) + sum(stats.get("mcp_error_cases", {}).values())
                        + sum(stats.get("mcp_history", {}).get("calls", {}).values()),
-        "distinct_nontrivial": stats["subsets"] + stats["section_comparisons"] + sum(stats.get("mcp_nonempty_findings", {}).values()),
+        "distinct_nontrivial": stats["subsets"] + stats["section_comparisons"] + sum(stats.get("mcp_nonempty_findings", {}).values())
+                               + stats.get("failing", {}).get("multi_failure_scenarios", 0),
         "rule": "generated project (generated control-flow modules, classes, an import cycle, a duplicated class file): combined report vs each "
                 "--select run per section; per-file rows of complexity/dead code/CBO/LCOM for every file alone, reversed order and random subsets "
                 "vs the whole project; all seven MCP tools (analyze_code, check_complexity, detect_clones, check_coupling, find_dead_code, "
@@ -288,10 +293,20 @@ def main(tier):
                 "--config on the command line); a failing history is cut at its first wrong answer, shrunk (call alone, one earlier call + the "
                 "call, greedy removal) and replayed through a `{ printf ..; sleep ..; printf ..; } | pyscn-mcp` line; "
                 "MCP analyze_code through the in-process hook; "
-                "-race build of the CLI under several GOMAXPROCS",
+                "-race build of the CLI under several GOMAXPROCS on successful runs; FAILING analyses (harness/c20fail.py): every subset of the failure "
+                "modes the command line offers (--min-complexity < 0, --clone-threshold outside [0,1], --min-cbo < 0, [lcom] thresholds the analysis "
+                "rejects; rejected values at and beyond each boundary and the accepted neighbour) on a normal project, a project with unparsable "
+                "files, only unparsable files (complexity then fails by itself) and files in which the analyses find nothing, with all analyses "
+                "or a shuffled --select of the failing ones plus a bystander, and failures before the concurrent stage (configuration rejected at "
+                "load time, unreadable / missing target): each combined command is repeated under the -race binary with GOMAXPROCS 1/2/4/16 — no "
+                "race report, status 1, identical `Error:` output in every repetition — and compared with every analysis run ALONE with the same "
+                "options: 'N error(s)' = number of analyses failing alone, the named failure is literally one of theirs, every section of the "
+                "combined report equals the section of the lone run",
         "input_distribution": stats, "strict_order": STRICT_ORDER, "disagreements_checked": len(ck.violations),
     })
     ck.trusted += ["Coq 8.16.1 kernel", "data-race freedom is tested with the Go race detector, not proved (Go memory model and scheduler not modelled)",
+                   "failing-analyses stage: the failure modes are those reachable from the `pyscn analyze` command line (dead code and the dependency analysis have none); the MCP "
+                   "server is not built with -race; GORACE=atexit_sleep_ms=20 there (the default sleeps 1 s at every successful exit); a race shows only if the detector observes it in one of the repetitions",
                    "MCP side: the real cmd/pyscn-mcp binary driven over stdio JSON-RPC (initialize + tools/call); the in-process hook (op mcp) only for analyze_code",
                    "call histories are sampled (all ordered pairs of targets per tool, all ordered pairs of tools), not all sequences; the calls of a history are sequential (concurrent calls on one server are not compared)",
                    "MCP vs CLI equality is decided on projected findings (rows, pairs, scores), not on the presentation (field names, order, wording)",
